@@ -27,7 +27,9 @@ func (p *rightPadder) Pad(data []byte, length int) []byte {
 	}
 
 	padding := bytes.Repeat(p.pad, length-len(data))
-	return append(data, padding...)
+	// copy into a new buffer: appending to data could write into the spare
+	// capacity of the caller's slice
+	return append(append(make([]byte, 0, length), data...), padding...)
 }
 
 func (p *rightPadder) Unpad(data []byte) []byte {
